@@ -228,12 +228,26 @@ def build_model(cfg, src):
 
 
 def build_parameters(cfg, src):
-    plist = [[lab, 1.0 + 0.1 * i, dict(cfg.get("param_options", {}).get(lab, {}))] for i, lab in enumerate(param_labels(cfg))]
+    def concrete_opts(o):
+        return {k: v for k, v in o.items() if v != "sym"}
+
+    plist = [[lab, 1.0 + 0.1 * i, concrete_opts(cfg.get("param_options", {}).get(lab, {}))] for i, lab in enumerate(param_labels(cfg))]
     for lab, expr in cfg.get("expr_params", {}).items():
         plist.append([lab, {"expr": expr}])
     params = Parameters.from_list(plist)
     for lab in param_labels(cfg):
-        params.get(lab).value = src.get(f"P_{lab}")
+        p = params.get(lab)
+        p.value = src.get(f"P_{lab}")
+        o = cfg.get("param_options", {}).get(lab, {})
+        # symbolic bounds ("sym"): LO_<label> / HI_<label>; float mode defaults bracket the value
+        if o.get("min") == "sym":
+            if not src.symbolic and f"LO_{lab}" not in src.env:
+                src.env[f"LO_{lab}"] = 0.5 * float(p.value)
+            object.__setattr__(p, "minimum", src.get(f"LO_{lab}"))
+        if o.get("max") == "sym":
+            if not src.symbolic and f"HI_{lab}" not in src.env:
+                src.env[f"HI_{lab}"] = 2.0 * float(p.value)
+            object.__setattr__(p, "maximum", src.get(f"HI_{lab}"))
     params.update_parameter_expression()
     return params
 
